@@ -207,6 +207,10 @@ pub fn run(opts: &Opts) -> Run {
         frames.push((b, format!("hostile {}", label)));
     }
     let mut shown = 0;
+    // directed hostile frames (failing table builds, four-stream jump tables around the size of the stream area)
+    for (b, label) in super::hostile::directed_hostile() {
+        frames.push((b, format!("directed {}", label)));
+    }
     for (f, label) in &frames {
         let Some(b) = split(f) else { continue };
         if b.blocks.iter().map(|x| x.1.len()).sum::<usize>() > 400_000 {
